@@ -60,9 +60,15 @@ theorem isLine_iff (g : Seg) : g.isLine = true ↔ ∃ p, g = .l p := by
 
 /-! ### classification of one sub-path -/
 
-/-- Rectangle points are the subject of the open finding `ltrect-pts-canonical-order`: the
-comparison of shapes leaves them out (they are compared separately in `C16_rect_pts`). -/
-def eraseRectPts (s : Shape) : Shape := if s.kind = .rect then { s with pts := [] } else s
+/-- Historical: while `LTRect.pts` was not in path order (finding `ltrect-pts-canonical-order`, fixed)
+this erased the points of rectangles from the comparison.  It is the identity now, so every statement
+below compares ALL attributes of the shapes (see `map_erase`). -/
+def eraseRectPts (s : Shape) : Shape := s
+
+theorem map_erase (l : List Shape) : l.map eraseRectPts = l := by
+  induction l with
+  | nil => rfl
+  | cons a rest ih => simp only [List.map_cons, ih]; rfl
 
 def specShape (a : PaintArgs) (kp : Kind × List Point) (tpath : List PSeg) : Shape :=
   mkShape kp.1 a kp.2 tpath
